@@ -6,7 +6,8 @@
  * empty and no ACK may be emitted; the receiver's error id must equal the
  * reference decoder's verdict; the reply must be the prescribed meta
  * message / error response. Second part: option-bit combinations and
- * arbitrary octet strings on both transports. */
+ * arbitrary octet strings on both transports. Third part: damage behind
+ * the SLIP encoder in a session served by the documented receive loop. */
 #include "rp_common.h"
 
 const char *harness_name = "c07_regp_corrupt";
@@ -427,9 +428,281 @@ u_options(uint64_t idx, void *arg)
     vh_sig(0x07100000ull ^ idx);
 }
 
+/* ---- part three: damage on the wire, i.e. behind the SLIP encoder ----
+ * A bit error on a serial line hits the encoded octets: it can create or destroy a delimiter or an escape
+ * octet, so the receiver sees a split, merged or undecodable frame. The server runs the loop from the
+ * comment in regp_recv() - one RPMaybeFrame for the whole session, regp_process() and regp_free() after
+ * every regp_recv(), failed or not. Session: a valid request A, then the damaged request B', then a valid
+ * request C. Oracle: every backend access and every acknowledgement seen while B' and C are served must
+ * belong to a frame an independent reading finds intact in those octets (segments between delimiters without
+ * an illegal escape, and - generously - whatever follows an illegal escape inside a segment). */
+struct wcand {
+    int write;
+    uint32_t addr, n;
+    uint16_t seq;
+    int used_call, used_ack;
+};
+
+static int
+wire_candidates(const unsigned char *w, size_t wn, int mem16, struct wcand *cand, int max)
+{
+    int nc = 0;
+    size_t i = 0;
+    while (i < wn) {
+        size_t e = i;
+        while (e < wn && w[e] != 0xc0)
+            e++;
+        if (e >= wn)
+            break; /* unterminated rest: never a frame */
+        /* starts: the segment itself and the octets behind each illegal escape */
+        size_t starts[40];
+        int ns = 0;
+        starts[ns++] = i;
+        for (size_t k = i; k < e; k++)
+            if (w[k] == 0xdb && (k + 1 >= e || (w[k + 1] != 0xdc && w[k + 1] != 0xdd))) {
+                if (ns + 2 < 40) {
+                    starts[ns++] = k + 1;
+                    starts[ns++] = k + 2 <= e ? k + 2 : e;
+                }
+            } else if (w[k] == 0xdb)
+                k++;
+        for (int si = 0; si < ns; si++) {
+            unsigned char raw[200];
+            size_t o = 0;
+            int bad = 0;
+            for (size_t k = starts[si]; k < e && o < sizeof raw; k++) {
+                unsigned char c = w[k];
+                if (c == 0xdb) {
+                    if (k + 1 < e && (w[k + 1] == 0xdc || w[k + 1] == 0xdd))
+                        c = w[++k] == 0xdc ? 0xc0 : 0xdb;
+                    else {
+                        bad = 1;
+                        break;
+                    }
+                }
+                raw[o++] = c;
+            }
+            struct rframe f;
+            if (bad || rp_decode_raw(raw, o, &f) != 0)
+                continue;
+            if (f.type != RT_READ_REQ && f.type != RT_WRITE_REQ)
+                continue;
+            if (((f.options & ROPT_W16) != 0) != (mem16 != 0))
+                continue;
+            if (nc < max)
+                cand[nc++] = (struct wcand){ f.type == RT_WRITE_REQ, f.addr, f.bsize, f.seq, 0, 0 };
+        }
+        i = e + 1;
+    }
+    return nc;
+}
+
+static RPMaybeFrame wire_mf; /* one for the whole session, as in the documented loop */
+
+static void
+wire_session(const unsigned char *awire, size_t an, const unsigned char *bwire, size_t bn, const unsigned char *cwire,
+             size_t cn, const char *mut, const char *origin)
+{
+    static unsigned char w[600];
+    if (++ncase_since_reset >= 6) {
+        vh_arena_reset();
+        H.nblk = 0;
+        ncase_since_reset = 0;
+    }
+    (*vh_ncases)++;
+    /* A: served normally */
+    rp_feed(&H, awire, an);
+    H.out_n = 0;
+    H.ncalls = 0;
+    H.bad_free = 0;
+    regp_recv(&H.p, &wire_mf);
+    regp_process(&H.p, &wire_mf);
+    regp_free(&H.p, wire_mf.frame);
+    int a_calls = H.ncalls;
+    rp_ledger_gc(&H);
+    /* B' and C */
+    memcpy(w, bwire, bn);
+    memcpy(w + bn, cwire, cn);
+    rp_feed(&H, w, bn + cn);
+    H.out_n = 0;
+    H.ncalls = 0;
+    int rounds = 0, recv_failed = 0;
+    for (; rounds < 12; rounds++) {
+        size_t before = H.in_pos;
+        int rc = regp_recv(&H.p, &wire_mf);
+        regp_process(&H.p, &wire_mf);
+        regp_free(&H.p, wire_mf.frame);
+        if (rc < 0 && H.in_pos < H.in_n)
+            recv_failed++;
+        if (H.in_runaway || (H.in_pos >= H.in_n && (rc < 0 || H.in_pos == before)))
+            break;
+    }
+    char key[96], ctx[360];
+    snprintf(key, sizeof key, "workload=wire-damage mutation=%s", mut);
+    snprintf(ctx, sizeof ctx, "%s: after a valid request, wire octets %s", origin, vh_hex(w, bn + cn > 80 ? 80 : bn + cn));
+    if (H.in_runaway) {
+        vh_fail("no-progress", key, "%s", ctx);
+        return;
+    }
+    if (a_calls != 1)
+        VH_COUNT("wire damage: leading valid request not executed once (not judged here)");
+    if (recv_failed)
+        VH_COUNT("wire damage making regp_recv fail before the end of the input (illegal escape)");
+    struct wcand cand[24];
+    int nc = wire_candidates(w, bn + cn, H.mem16, cand, 24);
+    if (nc >= 2)
+        VH_COUNT("wire damage leaving two intact requests");
+    else if (nc == 1)
+        VH_COUNT("wire damage leaving one intact request");
+    else
+        VH_COUNT("wire damage leaving no intact request");
+    for (int i = 0; i < H.ncalls && i < 8; i++) {
+        const struct rp_becall *c = &H.call[i];
+        int ok = 0;
+        for (int k = 0; k < nc && !ok; k++)
+            if (!cand[k].used_call && cand[k].write == c->write && cand[k].addr == c->addr && cand[k].n == c->n) {
+                cand[k].used_call = 1;
+                ok = 1;
+            }
+        if (!ok)
+            vh_fail("corrupted-frame-executed", key, "%s: backend %s addr=%08x n=%zu belongs to no intact frame in them "
+                    "(%d intact requests, %d backend calls)", ctx, c->write ? "write" : "read", c->addr, c->n, nc, H.ncalls);
+    }
+    if (H.ncalls > 8)
+        vh_fail("corrupted-frame-executed", key, "%s: %d backend calls", ctx, H.ncalls);
+    int nf = rp_unframe(1, H.out, H.out_n, &SP);
+    if (nf < 0) {
+        vh_fail("reply-malformed", key, "%s: replies %s", ctx, vh_hex(H.out, H.out_n > 40 ? 40 : H.out_n));
+    } else {
+        for (int i = 0; i < nf; i++) {
+            struct rframe r;
+            if (rp_decode_raw(SP.raw[i], SP.len[i], &r) != 0) {
+                vh_fail("reply-malformed", key, "%s: reply %d %s", ctx, i, vh_hex(SP.raw[i], SP.len[i] > 40 ? 40 : SP.len[i]));
+                continue;
+            }
+            if ((r.type != RT_READ_RESP && r.type != RT_WRITE_RESP) || r.meta != 0)
+                continue;
+            int ok = 0;
+            for (int k = 0; k < nc && !ok; k++)
+                if (!cand[k].used_ack && cand[k].write == (r.type == RT_WRITE_RESP) && cand[k].addr == r.addr
+                    && cand[k].seq == r.seq) {
+                    cand[k].used_ack = 1;
+                    ok = 1;
+                }
+            if (!ok)
+                vh_fail("corrupted-frame-acknowledged", key, "%s: acknowledgement seq=%u addr=%08x answers no intact frame",
+                        ctx, r.seq, r.addr);
+        }
+    }
+    if (rp_live_blocks(&H) || H.bad_free) {
+        vh_fail("block-ledger", key, "%s: %d live blocks, bad free %d", ctx, rp_live_blocks(&H), H.bad_free);
+        H.bad_free = 0;
+        for (int i = 0; i < H.nblk; i++)
+            H.blk[i].live = 0;
+    }
+    rp_ledger_gc(&H);
+}
+
+static void
+u_wire(uint64_t idx, void *arg)
+{
+    (void)arg;
+    vh_rng rg;
+    vh_unit_rng(&rg, "wire", idx);
+    const int mem16 = (int)(idx & 1);
+    const int write = (int)((idx >> 1) & 1);
+    const size_t words = (size_t)((idx >> 2) % 4) * 2 + (write ? 1 : 0);
+    vh_arena_reset();
+    rp_setup(&H, 1, mem16, 256);
+    memset(&wire_mf, 0, sizeof wire_mf);
+    ncase_since_reset = 0;
+    /* the three frames; B carries octets that need escaping in several fields */
+    unsigned char raw[3][80], wire[3][170], pl[3][16];
+    size_t wn[3];
+    for (int i = 0; i < 3; i++) {
+        struct rframe f;
+        memset(&f, 0, sizeof f);
+        int wr = i == 1 ? write : (int)vh_below(&rg, 2);
+        size_t nw = i == 1 ? words : (size_t)vh_below(&rg, 4);
+        f.type = wr ? RT_WRITE_REQ : RT_READ_REQ;
+        f.seq = (uint16_t)(i == 1 && vh_chance(&rg, 1, 2) ? 0xc000u | vh_below(&rg, 256) : vh_rand(&rg));
+        f.addr = 0x10000000u * (uint32_t)(i + 1) + (uint32_t)vh_below(&rg, 0x10000) + (i == 1 && vh_chance(&rg, 1, 2) ? 0xdb0000u : 0);
+        f.bsize = (uint32_t)nw;
+        f.plen = wr ? nw * (mem16 ? 2u : 1u) : 0;
+        for (size_t k = 0; k < f.plen; k++)
+            pl[i][k] = vh_chance(&rg, 1, 3) ? (vh_chance(&rg, 1, 2) ? 0xc0 : 0xdb) : (unsigned char)vh_rand(&rg);
+        f.payload = pl[i];
+        f.options = (mem16 ? ROPT_W16 : 0) | ROPT_HDCRC | (f.plen ? ROPT_PLCRC : 0);
+        size_t rn = rp_encode_raw(&f, raw[i]);
+        wn[i] = rp_slip(raw[i], rn, wire[i]);
+    }
+    char origin[96];
+    snprintf(origin, sizeof origin, "%s request of %zu words, mem%d", write ? "write" : "read", words, mem16 ? 16 : 8);
+    VH_CASE4(idx, write, words, mem16);
+    /* undamaged session first: all three served */
+    wire_session(wire[0], wn[0], wire[1], wn[1], wire[2], wn[2], "none", origin);
+    unsigned char m[170];
+    const size_t nbits = wn[1] * 8;
+    for (size_t b = 0; b < nbits; b++) {
+        memcpy(m, wire[1], wn[1]);
+        m[b >> 3] ^= (unsigned char)(1u << (b & 7));
+        VH_SUB(1, 1);
+        VH_SUB(2, b);
+        wire_session(wire[0], wn[0], m, wn[1], wire[2], wn[2], "single-bit", origin);
+    }
+    VH_COUNT("wire damage class: single-bit flip at every wire bit");
+    for (size_t a = 0; a < nbits; a++)
+        for (size_t b = a + 1; b < nbits; b++) {
+            if (!(b - a <= 9 || vh_chance(&rg, 1, vh_tier ? 16 : 160)))
+                continue;
+            memcpy(m, wire[1], wn[1]);
+            m[a >> 3] ^= (unsigned char)(1u << (a & 7));
+            m[b >> 3] ^= (unsigned char)(1u << (b & 7));
+            VH_SUB(1, 2);
+            VH_SUB(2, a);
+            VH_SUB(3, b);
+            wire_session(wire[0], wn[0], m, wn[1], wire[2], wn[2], "two-bit", origin);
+        }
+    VH_COUNT("wire damage class: two-bit flip");
+    for (size_t len = 2; len <= 16; len++)
+        for (size_t a = 0; a + len <= nbits; a++) {
+            if (!vh_tier && !vh_chance(&rg, 1, 4))
+                continue;
+            uint32_t interior = (uint32_t)vh_rand(&rg);
+            memcpy(m, wire[1], wn[1]);
+            for (size_t i = 0; i < len; i++)
+                if (i == 0 || i + 1 == len || ((interior >> i) & 1u))
+                    m[(a + i) >> 3] ^= (unsigned char)(1u << ((a + i) & 7));
+            VH_SUB(1, 3);
+            VH_SUB(2, a);
+            VH_SUB(3, len);
+            wire_session(wire[0], wn[0], m, wn[1], wire[2], wn[2], "burst", origin);
+        }
+    VH_COUNT("wire damage class: burst of 2..16 bits");
+    /* octets lost or duplicated on the line */
+    for (size_t k = 0; k < wn[1]; k++) {
+        memcpy(m, wire[1], k);
+        memcpy(m + k, wire[1] + k + 1, wn[1] - k - 1);
+        VH_SUB(1, 4);
+        VH_SUB(2, k);
+        wire_session(wire[0], wn[0], m, wn[1] - 1, wire[2], wn[2], "octet-lost", origin);
+        memcpy(m, wire[1], k + 1);
+        memcpy(m + k + 1, wire[1] + k, wn[1] - k);
+        wire_session(wire[0], wn[0], m, wn[1] + 1, wire[2], wn[2], "octet-duplicated", origin);
+    }
+    VH_COUNT("wire damage class: octet lost or duplicated");
+    vh_sig(0x07200000ull ^ idx);
+    if (idx == 3)
+        vh_sample("wire-damage", "session valid request, damaged %s, valid request; damage on the SLIP octets %s: every "
+                                 "single-bit flip, two-bit flips, bursts, lost and duplicated octets; one RPMaybeFrame for "
+                                 "the whole session", origin, vh_hex(wire[1], wn[1] > 40 ? 40 : wn[1]));
+}
+
 void
 harness_run(void)
 {
+    for (uint64_t i = 0; i < (vh_tier ? 4000u : 32u); i++)
+        vh_unit("wire", i, u_wire, NULL);
     unsigned nparts = vh_tier ? 8 : 2;
     /* corpus size is bounded by 128; units beyond the corpus return at once */
     for (uint64_t i = 0; i < 128u * nparts; i++)
@@ -446,7 +719,12 @@ harness_run(void)
                                  "arbitrary octet strings judged",
                                  "option-bit combination truncated at every length",
                                  "every single-bit flip of a generated frame (all option-bit combinations)",
-                                 "size field with high bits set over a matching low part" };
+                                 "size field with high bits set over a matching low part",
+                                 "wire damage class: single-bit flip at every wire bit",
+                                 "wire damage class: burst of 2..16 bits",
+                                 "wire damage making regp_recv fail before the end of the input (illegal escape)",
+                                 "wire damage leaving no intact request", "wire damage leaving one intact request",
+                                 "wire damage leaving two intact requests" };
     for (size_t i = 0; i < sizeof req / sizeof req[0]; i++)
         vh_require(req[i]);
 }
